@@ -25,6 +25,8 @@ type Program struct {
 	target         *ssa.Package
 	targetPath     string
 	intr           sync.Map
+	merge          sync.Map
+	straight       sync.Map
 	runtimeErrType types.Type
 	loadSeconds    float64
 	overlayFiles   []string
